@@ -442,10 +442,17 @@ def auto_facts(cl, f):
     for cls, key in (('CounterRemover', 'counter'), ('ConditionalRemover', 'conditional')):
         ok = True
         n = 0
+        # the shared Data record is built by make_shared, directly or in a member function that does just that (a
+        # private factory a refactoring may introduce)
+        makers = set(['call:make_shared'])
+        for hn, bodies in cl.methods(cls).items():
+            if any(any(m[1] == 'call:make_shared' for m in marks(b)) and not any(m[1] in ('call:appendListener', 'call:prependListener',
+                   'call:insertListener', 'call:append', 'call:prepend', 'call:insert') for m in marks(b)) for _, b in bodies):
+                makers.add('call:' + hn)
         for name in ('appendListener', 'prependListener', 'insertListener', 'append', 'prepend', 'insert'):
             for decl, body in cl.methods(cls).get(name, []):
                 ms = marks(body)
-                mk = first(ms, is_call('make_shared'), 'make_shared', required=False)
+                mk = first(ms, lambda m: m[1] in makers, 'make_shared', required=False)
                 ad = first(ms, lambda m: m[1] == 'call:' + name and m[3] in ('dispatcher', 'callbackList'), 'add', required=False)
                 if mk is None or ad is None:
                     raise Untranslatable('%s::%s: make_shared / add call not found' % (cls, name))
